@@ -60,7 +60,14 @@ class Ctx:
 
     # -- budgets ------------------------------------------------------------------------
     def n(self, quick, thorough):
+        """Tier-dependent parameter (never rescaled)."""
         return quick if self.quick else thorough
+
+    def budget(self, quick, thorough):
+        """Case budget of a stream. SYMV_QUICK_SCALE / SYMV_THOROUGH_SCALE rescale it."""
+        if self.quick:
+            return max(1, int(quick * float(os.environ.get("SYMV_QUICK_SCALE", "1"))))
+        return max(1, int(thorough * float(os.environ.get("SYMV_THOROUGH_SCALE", "1"))))
 
     def time_left(self):
         return time.time() < self.t_end
